@@ -9,6 +9,7 @@
 #include "parser/preprocessor.h"
 #include "value_scope.h"
 #include "sqfop.h"
+#include "verif_hooks.h"
 
 #include <chrono>
 #include <atomic>
@@ -257,6 +258,9 @@ namespace sqf::runtime
                 if (m_evaluate_halt)
                 {
                     m_state = state::evaluating;
+#ifdef SQFVM_RUNTIME_VERIF
+                    while (m_evaluate_halt) { SQFVM_VERIF_POINT("spin:perform_evaluate.wait"); }
+#endif
                     while (m_evaluate_halt);
                     if (m_state == state::evaluating)
                     {
